@@ -100,8 +100,10 @@ ViewOf(withH) ==
           {<<r.m, Rel(r.ts), r.st, r.try, r.res>> : r \in subs},
           [i \in 1..Len(mempool) |-> <<mempool[i].m, Rel(mempool[i].ts), mempool[i].try>>],
           Rel(lastPoll), calm, waited, rejSeen, stg>>
-\* fault facets: heights are part of the state (the block half of the miss rule decides `active`)
-ViewH == ViewOf(TRUE)
+\* fault facets: heights are part of the state (the block half of the miss rule decides `active`), and so are
+\* the quantities their bounds speak about (clock, height, number of submissions): a bounded search must not
+\* merge states with different remaining budgets
+ViewH == <<ViewOf(TRUE), clk, h, nsub>>
 \* live facets: heights only enter Miss, and Miss is false wherever NeverLate holds in the successor state
 \* (same expression, the block half can only weaken it); so no transition or invariant depends on them
 \* on the part of the state space where the invariants hold
